@@ -27,5 +27,36 @@ for meta in "$HERE"/selftest/mutants/*.expect; do
   done < <(sed -n 's/^obligation: *//p' "$meta")
   if [ $ok = 1 ]; then echo "SELFTEST $name: ok (detected)"; else fail=1; echo "$out" | tail -5; fi
 done
-echo "selftest: $n mutants, fail=$fail"
+# Must-pass corpus: property-preserving edits (renamed locals, reordered independent statements, extra logging, changed
+# message texts) that no check may flag.
+nb=0
+for meta in "$HERE"/selftest/benign/*.expect; do
+  name="$(basename "$meta" .expect)"
+  if [ -n "$PAT" ] && ! echo "benign_$name" | grep -q "$PAT"; then continue; fi
+  nb=$((nb+1))
+  git -C "$TMP/wt" checkout -q -- . && git -C "$TMP/wt" clean -fdq
+  if ! git -C "$TMP/wt" apply "$HERE/selftest/benign/$name.patch" 2>"$TMP/apply.err"; then echo "SELFTEST benign_$name: patch does not apply: $(cat $TMP/apply.err)"; fail=1; continue; fi
+  if ! ( cd "$TMP/wt" && PATH=/opt/veriftools/go1.26.8/bin:$PATH GOTOOLCHAIN=local GOFLAGS=-mod=mod GOPROXY=off GOSUMDB=off go build ./... ) >"$TMP/build.err" 2>&1; then echo "SELFTEST benign_$name: does not build: $(head -3 $TMP/build.err)"; fail=1; continue; fi
+  ok=1
+  for prop in $(sed -n 's/^property: *//p' "$meta"); do
+    out="$(cd "$HERE" && bin/govc check --repo "$TMP/wt" --verif "$HERE" --prop "$prop" --tier quick --no-evidence --replay-dir "$TMP/replay" 2>&1)"; rc=$?
+    if [ $rc != 0 ] || echo "$out" | grep -q "VIOLATION"; then ok=0; echo "SELFTEST benign_$name: $prop raised an alarm on a property-preserving edit"; echo "$out" | grep "VIOLATION\|^note" | cut -c1-300 | head -5; fi
+  done
+  if [ $ok = 1 ]; then echo "SELFTEST benign_$name: ok (no alarm)"; else fail=1; fi
+done
+# every local variable of every function under /repo/internal renamed at once (mechanically, by `govc rename-locals`):
+# the contracts name locals, so this is the hardest property-preserving edit for them; no check may flag it
+if [ -z "$PAT" ] || echo "benign_all_locals_renamed" | grep -q "$PAT"; then
+  nb=$((nb+1))
+  git -C "$TMP/wt" checkout -q -- . && git -C "$TMP/wt" clean -fdq
+  ( cd "$HERE" && bin/govc rename-locals --repo "$TMP/wt" ) >"$TMP/rn.out" 2>&1 || { echo "SELFTEST benign_all_locals_renamed: rename tool failed: $(tail -2 $TMP/rn.out)"; fail=1; }
+  if ! ( cd "$TMP/wt" && PATH=/opt/veriftools/go1.26.8/bin:$PATH GOTOOLCHAIN=local GOFLAGS=-mod=mod GOPROXY=off GOSUMDB=off go build ./... ) >"$TMP/build.err" 2>&1; then echo "SELFTEST benign_all_locals_renamed: does not build: $(head -3 $TMP/build.err)"; fail=1; fi
+  ok=1
+  for prop in $(python3 -c "import json;print(' '.join(c['property_id'] for c in json.load(open('$HERE/MANIFEST.json'))['checks']))"); do
+    out="$(cd "$HERE" && bin/govc check --repo "$TMP/wt" --verif "$HERE" --prop "$prop" --tier quick --no-evidence --replay-dir "$TMP/replay" 2>&1)"; rc=$?
+    if [ $rc != 0 ] || echo "$out" | grep -q "VIOLATION"; then ok=0; echo "SELFTEST benign_all_locals_renamed: $prop raised an alarm"; echo "$out" | grep "VIOLATION\|out of reach" | cut -c1-300 | head -5; fi
+  done
+  if [ $ok = 1 ]; then echo "SELFTEST benign_all_locals_renamed: ok (no alarm on $(cat $TMP/rn.out))"; else fail=1; fi
+fi
+echo "selftest: $n mutants, $nb benign edits, fail=$fail"
 exit $fail
